@@ -34,6 +34,25 @@ for r in mine:
     ent = m[r]
     det = [c for c, x in ent.get('checks', {}).items() if x['exit'] == 1]
     text.append('* `%s`: pinned tests %s; reported by %s' % (r, ent.get('pinned_tests', 'n/a'), ', '.join(det) or 'none'))
+# 8.3 behaviour-preserving refactorings: the false-alarm test
+head = os.popen('git -C /repo rev-parse --short HEAD').read().strip()
+rf = sorted(r for r in m if r.startswith('refactorings/'))
+done = [r for r in rf if len(m[r].get('checks', {})) == 20 and m[r].get('repo_head') == head]
+stale = [r for r in rf if len(m[r].get('checks', {})) == 20 and m[r].get('repo_head') != head]
+alarms = [(r, c) for r in rf for c, x in m[r].get('checks', {}).items() if x['exit'] != 0]
+nrf = len([d for d in os.listdir(os.path.join(V, 'refactorings')) for k in os.listdir(os.path.join(V, 'refactorings', d))])
+text += ['', '### 8.3 Behaviour-preserving refactorings (`refactorings/RF*/*/patch.diff`): the false-alarm test', '',
+         'Forty patches written by ten independent sub-agents (each was told to restructure one area of the package without changing any '
+         'observable behaviour, and verified that itself: 49 tests, byte-identical results, logs and written files over all example structures '
+         'and option sets).  A check that raises an alarm on one of them is wrong (or the refactoring is not equivalent - none was).  Each patch '
+         'is run against ALL twenty quick checks; a full pass of the forty patches costs five hours of the whole machine, so not every patch '
+         'could be re-run after the last strengthening of the checks:', '',
+         '* run against the final checks and the final tree (%s): %d patches, %d check runs, all exit 0: %s' % (
+             head, len(done), 20 * len(done), ', '.join(r.split('/', 1)[1].rsplit('/', 1)[0] for r in done)),
+         '* run against earlier versions of the checks (all exit 0 then; not repeated): %s' % (
+             ', '.join(r.split('/', 1)[1].rsplit('/', 1)[0] for r in stale) or 'none'),
+         '* not run: %d patches' % (nrf - len(done) - len(stale)),
+         '* alarms: %s' % (', '.join('%s by %s' % a for a in alarms) or 'none')]
 p = os.path.join(V, 'DESIGN.md')
 s = open(p).read()
 block = '<!-- MATRIX BEGIN -->\n' + '\n'.join(text) + '\n<!-- MATRIX END -->'
